@@ -52,6 +52,10 @@ def cases(rng, tier):
         out.append({'seed': rng.getrandbits(30), 'cls': 'mpo', 'mode': rng.choice(['left', 'right']), 'L': rng.choice([1, 2, 2, 3, 3, 4]),
                     'd': rng.choice([2, 2, 3]), 'qclass': 'charged', 'dtype': rng.choice(['complex', 'real']), 'entries': rng.choice(['float', 'int']),
                     'connected': True, 'rankdef': False, 'Dmax': rng.choice([2, 3]), 'charged': True})
+    for k in range({'quick': 10, 'thorough': 60, 'search': 10}[tier]):
+        out.append({'seed': rng.getrandbits(30), 'cls': 'mps', 'mode': rng.choice(['left', 'right']), 'L': rng.choice([3, 4, 4]), 'd': 4,
+                    'qclass': 'fermi', 'dtype': rng.choice(['complex', 'real']), 'entries': 'float', 'connected': True, 'rankdef': False,
+                    'Dmax': 16, 'fermi': True})
     # per-site dtypes (a real or integer tensor is swept before / after a complex one) and magnitude regimes (every tensor times a
     # power of two: exact; the norm of the whole object goes down to 2^-150 or up to 2^100)
     for c in out:
@@ -113,6 +117,11 @@ def build(case):
 
 def _build(case):
     rs = np.random.default_rng(case['seed'])
+    if case.get('fermi'):
+        # Fermi-Hubbard sector structure: encoded charge pairs (N << 16) + S, several S per N on every bond, N up to 2 L
+        import tdgen as T
+        H = T.hamiltonian('fermi', case['L'], rs)
+        return T.state(H, rs, complete=True, dtype=case['dtype'])
     L, d = case['L'], case['d']
     if case.get('charged'):
         return _charged_mpo(rs, L, d, case['Dmax'], case['dtype'], case['entries'])
